@@ -129,3 +129,7 @@ package json
 //@   ensures [C08C09_J2] 0 <= inspected && inspected <= len(raw)
 //@   ensures [C08_J1] parsed > 0 ==> inspected == parsed
 //@   defines (parsed == len(raw) && len(raw) > 0) == parseComplete(raw)
+
+//@ func json.LooksLikeObjectOrArray
+//@   ensures [C09_looks] result ==> (exists i :: 0 <= i && i < len(raw) && (raw[i] == '{' || raw[i] == '[') && (forall j :: 0 <= j && j < i ==> isSpaceB(raw[j])))
+//@   loop 1 invariant [C09_looks_inv] forall j :: 0 <= j && j <= rangeindex ==> isSpaceB(raw[j])
